@@ -39,10 +39,13 @@ CELLS_P = {"c": "lambda: i * 2 + r2", "d": "lambda x: c() + x"}
 ROOTS = {
     "one": {"spaces": {"P": {"formula": "lambda i: None", "refs": {"r2": 1},
                              "cells": dict(CELLS_P, n={"src": "lambda: None", "allow_none": True}),
-                             "spaces": {"T": {"cells": {"tc": "lambda: i + 100 + c2()", "c2": "lambda: 7"}}}}},
+                             "spaces": {"T": {"refs": {"tq": 1},
+                                              "cells": {"tc": "lambda: i + 100 + c2()", "c2": "lambda: 7",
+                                                        "tr": "lambda: tq + i"}}}}},
             "refs": {"G": 5},
             "inst": ["P[1]", "P(1)", "P(i=1)", "P[2]"], "same": [["P[1]", "P(1)", "P(i=1)"]],
-            "probes": ["P[1].c()", "P[1].d(2)", "P[2].c()", "P[1].T.tc()", "P(i=1).d(0)", "P[1].n()", "P.n()"]},
+            "probes": ["P[1].c()", "P[1].d(2)", "P[2].c()", "P[1].T.tc()", "P(i=1).d(0)", "P[1].n()", "P.n()", "P[1].T.tr()",
+                       "P[1].T.tn"]},
     "two": {"spaces": {"P": {"formula": "lambda i, j=0: None", "refs": {"r2": 1},
                              "cells": {"c": "lambda: i * 2 + j + r2", "d": "lambda x: c() + x"}}},
             "refs": {"G": 5},
@@ -131,7 +134,8 @@ def alphabet(rootname):
                 py("m.P.foo.formula = 'lambda x: x + 500'"), py("m.P.remove_bases(m.Base)"),
                 py("m.Base.foo.rename('foo2')"), py("m.P[1].foo[3] = 77")]
     if rootname == "one":
-        ops += [py("m.P.T.c2.formula = 'lambda: 8'"), py("del m.P.T"), py("m.P.T.new_cells('z', formula='lambda: 0')")]
+        ops += [py("m.P.T.c2.formula = 'lambda: 8'"), py("del m.P.T"), py("m.P.T.new_cells('z', formula='lambda: 0')"),
+                py("m.P.T.tq = 2"), py("m.P.T.tn = 3"), py("del m.P.T.tq"), py("m.P[1].T", False)]
     return ops
 
 
